@@ -5,6 +5,11 @@ import EtkVerif.Asm.IngestTraced
 namespace EtkVerif.Driver
 open EtkVerif Asm
 
+/-- fuel for a file tree whose files hold `total` bytes altogether: above `256 * (N + 2)` for every `N ≤ total + 1`
+(`C14_ingest_terminates`: the include recursion) and above `257 * (opsSize + 2)` for the ops such sources can yield
+(`C14_terminates`: the assembler), so that the fuel marker is never the answer -/
+def fsFuel (total : Nat) : Nat := 1100 * (total + 100) + 100000
+
 def strOfBytes (bs : List Nat) : String :=
   (String.fromUTF8? (ByteArray.mk (bs.map (·.toUInt8)).toArray)).getD ""
 
@@ -62,7 +67,7 @@ def cmdAsmFs (args : List String) : String :=
       let t := withParents tree
       let topPath := PathC.ofString ("/" ++ strOfBytes tb)
       let total := t.foldl (fun acc (_, e) => match e with | .file c => acc + c.length | _ => acc) 0
-      match ingestFile t.toFS ⟨true, []⟩ (fun k => k) (asmFuelFor total) topPath with
+      match ingestFile t.toFS ⟨true, []⟩ (fun k => k) (fsFuel total) topPath with
       | .ok (bytes, _) => s!"ok {hx bytes}"
       | .error e => showIngErr e
     | _, _ => "bad-op"
@@ -79,7 +84,7 @@ def cmdAsmFsR (args : List String) : String :=
       let t := withParents tree
       let topPath := PathC.ofString ("/" ++ strOfBytes tb)
       let total := t.foldl (fun acc (_, e) => match e with | .file c => acc + c.length | _ => acc) 0
-      let (res, tr) := Traced.ingestFileT t.toFS ⟨true, []⟩ (fun k => k) (asmFuelFor total) topPath
+      let (res, tr) := Traced.ingestFileT t.toFS ⟨true, []⟩ (fun k => k) (fsFuel total) topPath
       let reads := (readsOf tr).map (fun loc => "/".intercalate loc)
       let body := match res with
         | .ok bytes => s!"ok {hx bytes}"
